@@ -398,8 +398,30 @@ class SysFacade:
 # ----------------------------------------------------------------------------
 # stub tool-chain: file-level contract of Cython / distutils build_ext / dlopen
 
-class StubCompileError(Exception):
-    pass
+def _real_error_bases():
+    """The stub tool-chain raises what the real one raises, so that code under test which distinguishes
+    exception types (except CompileError: ...) behaves as it would with the real tool-chain."""
+    bases = []
+    try:
+        from distutils.errors import CompileError, LinkError       # setuptools' vendored distutils
+        bases += [CompileError, LinkError]
+    except Exception:
+        pass
+    try:
+        from Cython.Compiler.Errors import CompileError as CyErr
+        bases.append(CyErr)
+    except Exception:
+        pass
+    return tuple(bases) or (Exception,)
+
+
+class StubCompileError(*_real_error_bases()):
+    def __init__(self, msg=''):
+        Exception.__init__(self, msg)
+        self.args = (msg,)
+
+    def __str__(self):
+        return str(self.args[0]) if self.args else ''
 
 
 def src_text(tag, size=6):
